@@ -276,6 +276,12 @@ def oracle(case, meta, impl):
                 ok = False
             if len(reads) > len(items) and reads[len(items)][1] != "N":
                 return ("memstream.read-past-end", "a read after the last item delivered %s" % reads[len(items)][1])
+        if not ok and buf == hx(want):
+            # the bytes are right, a value read back is not: e.g. a destination that keeps (part of) its previous contents
+            firstbad = next((j for j, (i, t) in enumerate(zip(items, reads)) if t[1] != expect_tok(i)), None)
+            return ("memstream.read-back-differs", "the stream holds the documented bytes, but read %s of the sequence delivered %s instead of %s "
+                    "(vector reads go into one reused destination per element size that is never empty to begin with): %s"
+                    % (firstbad, reads[firstbad][1][:60] if firstbad is not None else "?", expect_tok(items[firstbad])[:60] if firstbad is not None else "?", impl[:200]))
         if not ok:
             if bad_sz:
                 return (SIG_VEC, "vector(s) with element size %s do not round trip: bytes %s, expected %s" % (bad_sz, buf, hx(want)))
